@@ -26,14 +26,53 @@ type ccpVal struct {
 	b    bool
 }
 
+// ccpCtx carries the walk position (for phi resolution) and optional pattern bindings.
+type ccpCtx struct {
+	cur, prev *ssa.BasicBlock
+	ints      map[ssa.Value]int64             // integer bindings (parameters)
+	loadHook  func(u *ssa.UnOp) (int64, bool) // value of a field load, e.g. every load of SFid.Mode
+	depth     int
+}
+
+var ccpCur = &ccpCtx{}
+
 func ccpEval(v ssa.Value, bind map[ssa.Value]string, depth int) (ccpVal, bool) {
-	if depth > 8 {
+	if depth > 10 {
 		return ccpVal{}, false
 	}
 	if s, ok := bind[v]; ok {
 		return ccpVal{kind: "s", s: s}, true
 	}
+	if ccpCur.ints != nil {
+		if i, ok := ccpCur.ints[v]; ok {
+			return ccpVal{kind: "i", i: i}, true
+		}
+	}
 	switch x := v.(type) {
+	case *ssa.Phi:
+		if ccpCur.cur == x.Block() && ccpCur.prev != nil {
+			for i, p := range x.Block().Preds {
+				if p == ccpCur.prev {
+					return ccpEval(x.Edges[i], bind, depth+1)
+				}
+			}
+		}
+		// all edges fold to the same value
+		var first ccpVal
+		for i, e := range x.Edges {
+			ev, ok := ccpEval(e, bind, depth+1)
+			if !ok {
+				return ccpVal{}, false
+			}
+			if i == 0 {
+				first = ev
+			} else if ev != first {
+				return ccpVal{}, false
+			}
+		}
+		return first, len(x.Edges) > 0
+	case *ssa.ChangeType:
+		return ccpEval(x.X, bind, depth+1)
 	case *ssa.Const:
 		if x.Value == nil {
 			return ccpVal{}, false
@@ -52,6 +91,11 @@ func ccpEval(v ssa.Value, bind map[ssa.Value]string, depth int) (ccpVal, bool) {
 		if x.Op == token.NOT {
 			if a, ok := ccpEval(x.X, bind, depth+1); ok && a.kind == "b" {
 				return ccpVal{kind: "b", b: !a.b}, true
+			}
+		}
+		if x.Op == token.MUL && ccpCur.loadHook != nil {
+			if i, ok := ccpCur.loadHook(x); ok {
+				return ccpVal{kind: "i", i: i}, true
 			}
 		}
 	case *ssa.Slice:
@@ -110,6 +154,18 @@ func ccpEval(v ssa.Value, bind map[ssa.Value]string, depth int) (ccpVal, bool) {
 			if a, ok := ccpEval(x.Call.Args[0], bind, depth+1); ok && a.kind == "s" {
 				return ccpVal{kind: "i", i: int64(len(a.s))}, true
 			}
+		default:
+			if f := staticCallee(&x.Call); f != nil && f.Blocks != nil && f.Pkg != nil && strings.HasPrefix(f.Pkg.Pkg.Path(), modPath) && ccpCur.depth < 3 {
+				var args []ccpVal
+				for _, a := range x.Call.Args {
+					av, ok := ccpEval(a, bind, depth+1)
+					if !ok {
+						return ccpVal{}, false
+					}
+					args = append(args, av)
+				}
+				return ccpCall(f, args)
+			}
 		case "strings.ContainsAny":
 			a, ok1 := ccpEval(x.Call.Args[0], bind, depth+1)
 			b, ok2 := ccpEval(x.Call.Args[1], bind, depth+1)
@@ -137,6 +193,13 @@ func ccpEval(v ssa.Value, bind map[ssa.Value]string, depth int) (ccpVal, bool) {
 		}
 		bo := func(c bool) (ccpVal, bool) { return ccpVal{kind: "b", b: c}, true }
 		switch a.kind {
+		case "b":
+			switch x.Op {
+			case token.EQL:
+				return bo(a.b == b.b)
+			case token.NEQ:
+				return bo(a.b != b.b)
+			}
 		case "s":
 			switch x.Op {
 			case token.EQL:
@@ -150,6 +213,14 @@ func ccpEval(v ssa.Value, bind map[ssa.Value]string, depth int) (ccpVal, bool) {
 				return ccpVal{kind: "i", i: a.i + b.i}, true
 			case token.SUB:
 				return ccpVal{kind: "i", i: a.i - b.i}, true
+			case token.AND:
+				return ccpVal{kind: "i", i: a.i & b.i}, true
+			case token.OR:
+				return ccpVal{kind: "i", i: a.i | b.i}, true
+			case token.XOR:
+				return ccpVal{kind: "i", i: a.i ^ b.i}, true
+			case token.AND_NOT:
+				return ccpVal{kind: "i", i: a.i &^ b.i}, true
 			case token.EQL:
 				return bo(a.i == b.i)
 			case token.NEQ:
@@ -171,33 +242,165 @@ func ccpEval(v ssa.Value, bind map[ssa.Value]string, depth int) (ccpVal, bool) {
 // ccpReach: blocks reachable from start with the binding, not continuing past blocks in stop.
 func ccpReach(start *ssa.BasicBlock, bind map[ssa.Value]string, stop map[*ssa.BasicBlock]bool) map[*ssa.BasicBlock]bool {
 	seen := map[*ssa.BasicBlock]bool{}
-	var walk func(b *ssa.BasicBlock)
-	walk = func(b *ssa.BasicBlock) {
-		if seen[b] {
+	type edge struct{ b, prev *ssa.BasicBlock }
+	visited := map[edge]bool{}
+	saved := *ccpCur
+	defer func() { *ccpCur = saved }()
+	var walk func(b, prev *ssa.BasicBlock)
+	walk = func(b, prev *ssa.BasicBlock) {
+		if visited[edge{b, prev}] {
 			return
 		}
+		visited[edge{b, prev}] = true
 		seen[b] = true
 		if stop[b] {
 			return
 		}
 		if len(b.Instrs) > 0 {
 			if ifi, ok := b.Instrs[len(b.Instrs)-1].(*ssa.If); ok {
+				ccpCur.cur, ccpCur.prev = b, prev
 				if v, ok := ccpEval(ifi.Cond, bind, 0); ok && v.kind == "b" {
 					if v.b {
-						walk(b.Succs[0])
+						walk(b.Succs[0], b)
 					} else {
-						walk(b.Succs[1])
+						walk(b.Succs[1], b)
 					}
 					return
 				}
 			}
 		}
 		for _, s := range b.Succs {
-			walk(s)
+			walk(s, b)
 		}
 	}
-	walk(start)
+	walk(start, nil)
 	return seen
+}
+
+// ccpCall folds a call of a pure module function on constant arguments: the function's CFG is walked with the
+// parameters bound, decided branches followed; the call folds iff every reachable return folds to one value.
+func ccpCall(f *ssa.Function, args []ccpVal) (ccpVal, bool) {
+	// purity: no stores to non-local memory, no calls except foldable ones (checked lazily by evaluation), no channel ops
+	pure := true
+	eachInstr(f, func(in ssa.Instruction) {
+		switch x := in.(type) {
+		case *ssa.Store:
+			if a, _ := rootAlloc(x.Addr); a == nil {
+				pure = false
+			}
+		case *ssa.Send, *ssa.Go, *ssa.Defer, *ssa.MapUpdate, *ssa.Select, *ssa.Panic:
+			pure = false
+		}
+	})
+	if !pure {
+		return ccpVal{}, false
+	}
+	saved := *ccpCur
+	defer func() { *ccpCur = saved }()
+	bindS := map[ssa.Value]string{}
+	ints := map[ssa.Value]int64{}
+	for i, p := range f.Params {
+		if i >= len(args) {
+			return ccpVal{}, false
+		}
+		switch args[i].kind {
+		case "s":
+			bindS[p] = args[i].s
+		case "i":
+			ints[p] = args[i].i
+		case "b":
+			if args[i].b {
+				ints[p] = 1
+			} else {
+				ints[p] = 0
+			}
+		}
+	}
+	depth := saved.depth + 1
+	var results []ccpVal
+	okAll := true
+	type edge struct{ b, prev *ssa.BasicBlock }
+	visited := map[edge]bool{}
+	var walk func(b, prev *ssa.BasicBlock)
+	walk = func(b, prev *ssa.BasicBlock) {
+		if visited[edge{b, prev}] || !okAll {
+			return
+		}
+		visited[edge{b, prev}] = true
+		*ccpCur = ccpCtx{cur: b, prev: prev, ints: ints, loadHook: saved.loadHook, depth: depth}
+		// bind this block's phis for the edge taken (later uses in dominated blocks see the value)
+		if prev != nil {
+			type pv struct {
+				phi *ssa.Phi
+				v   ccpVal
+			}
+			var vals []pv
+			for _, in := range b.Instrs {
+				ph, ok := in.(*ssa.Phi)
+				if !ok {
+					break
+				}
+				for i, pr := range b.Preds {
+					if pr == prev {
+						if v, ok := ccpEval(ph.Edges[i], bindS, 0); ok {
+							vals = append(vals, pv{ph, v})
+						}
+					}
+				}
+			}
+			for _, x := range vals {
+				switch x.v.kind {
+				case "i":
+					ints[x.phi] = x.v.i
+				case "s":
+					bindS[x.phi] = x.v.s
+				}
+			}
+		}
+		switch t := b.Instrs[len(b.Instrs)-1].(type) {
+		case *ssa.Return:
+			if len(t.Results) != 1 {
+				okAll = false
+				return
+			}
+			v, ok := ccpEval(t.Results[0], bindS, 0)
+			if !ok {
+				okAll = false
+				return
+			}
+			results = append(results, v)
+		case *ssa.If:
+			v, ok := ccpEval(t.Cond, bindS, 0)
+			if ok && v.kind == "b" {
+				if v.b {
+					walk(b.Succs[0], b)
+				} else {
+					walk(b.Succs[1], b)
+				}
+				return
+			}
+			for _, s := range b.Succs {
+				walk(s, b)
+			}
+		default:
+			for _, s := range b.Succs {
+				walk(s, b)
+			}
+		}
+	}
+	if len(f.Blocks) == 0 {
+		return ccpVal{}, false
+	}
+	walk(f.Blocks[0], nil)
+	if !okAll || len(results) == 0 {
+		return ccpVal{}, false
+	}
+	for _, r := range results[1:] {
+		if r != results[0] {
+			return ccpVal{}, false
+		}
+	}
+	return results[0], true
 }
 
 // the alphabet of name classes
